@@ -1,5 +1,95 @@
-(* C16 property theorems (placeholder until the sort-inference development lands). *)
-From DD Require Import Spec.Typing.
+(* C16: for every subterm of a well-sorted input in which each symbol is bound
+   once, the sort the oracle infers is unknown or the term's actual sort, and
+   the bit-width it infers is unknown (-1) or the actual width.
+   Model: Model/Smtlib.v (oracle), specification: Spec/Typing.v (type_of).
+   Hypotheses (Proofs/Sort/SortHyps.v): lookup_agrees, consts_unbound,
+   ops_unbound, sorts_canon, cons_agree; binders: Proofs/Sort/Subterms.v (reach,
+   binders_ok); scripts: Proofs/Sort/Decls.v (script_ok). *)
+From DD Require Import Model.Smtlib Spec.Typing.
+From DD Require Import Proofs.Sort.DecRT Proofs.Sort.SortBase Proofs.Sort.TypeApp Proofs.Sort.SortHyps
+  Proofs.Sort.TableChecks Proofs.Sort.Width Proofs.Sort.SortSound Proofs.Sort.Corollaries
+  Proofs.Sort.Decls Proofs.Sort.Subterms Proofs.Sort.SortExamples.
+Local Open Scope list_scope.
+
+(* W1 *)
+Theorem bv_width_sound : forall I g e w s,
+  lookup_agrees I g -> consts_unbound g -> ops_unbound g -> sorts_canon I ->
+  Smtlib.bv_width I e = Some w -> w <> (-1)%Z -> type_of g e = Some s ->
+  s = sBV (Z.to_N w) /\ (0 <= w)%Z.
+Proof. exact bv_width_sound_proof. Qed.
+Print Assumptions bv_width_sound.
+
+Theorem bv_width_sound_weak : forall I g e w s,
+  lookup_agrees I g -> consts_unbound g -> ops_unbound g ->
+  Smtlib.bv_width I e = Some w -> w <> (-1)%Z -> type_of g e = Some s ->
+  Typing.bv_width s = Some (Z.to_N w) /\ (0 <= w)%Z.
+Proof. exact bv_width_sound_weak_proof. Qed.
+Print Assumptions bv_width_sound_weak.
+
+(* W2 *)
+Theorem get_sort_sound : forall I g e idx s' s,
+  lookup_agrees I g -> consts_unbound g -> ops_unbound g -> sorts_canon I -> cons_agree I g ->
+  Smtlib.get_sort I idx e = Some s' -> type_of g e = Some s -> s' = s.
+Proof. exact get_sort_sound_proof. Qed.
+Print Assumptions get_sort_sound.
+
+(* W3 *)
+Theorem sort_unknown_or_actual : forall I g e idx s,
+  lookup_agrees I g -> consts_unbound g -> ops_unbound g -> sorts_canon I -> cons_agree I g ->
+  type_of g e = Some s ->
+  Smtlib.get_sort I idx e = None \/ Smtlib.get_sort I idx e = type_of g e.
+Proof. exact sort_unknown_or_actual_proof. Qed.
+Print Assumptions sort_unknown_or_actual.
+
+Theorem width_unknown_or_actual : forall I g e s,
+  lookup_agrees I g -> consts_unbound g -> ops_unbound g -> sorts_canon I ->
+  type_of g e = Some s ->
+  Smtlib.get_bv_width I e = (-1)%Z \/ Smtlib.get_bv_width I e = (-2)%Z \/
+  ((0 <= Smtlib.get_bv_width I e)%Z /\ s = sBV (Z.to_N (Smtlib.get_bv_width I e))).
+Proof. exact width_unknown_or_actual_proof. Qed.
+Print Assumptions width_unknown_or_actual.
+
+Theorem width_unknown_or_actual_weak : forall I g e s,
+  lookup_agrees I g -> consts_unbound g -> ops_unbound g ->
+  type_of g e = Some s ->
+  Smtlib.get_bv_width I e = (-1)%Z \/ Smtlib.get_bv_width I e = (-2)%Z \/
+  ((0 <= Smtlib.get_bv_width I e)%Z /\ Typing.bv_width s = Some (Z.to_N (Smtlib.get_bv_width I e))).
+Proof. exact width_unknown_or_actual_weak_proof. Qed.
+Print Assumptions width_unknown_or_actual_weak.
+
+(* every subterm, in its own typing environment *)
+Theorem subterm_sound : forall I g e s g' e',
+  lookup_agrees I g -> consts_unbound g -> ops_unbound g -> sorts_canon I -> cons_agree I g ->
+  type_of g e = Some s -> reach I g e g' e' ->
+  exists s', type_of g' e' = Some s' /\
+    (forall idx, Smtlib.get_sort I idx e' = None \/ Smtlib.get_sort I idx e' = Some s') /\
+    (Smtlib.get_bv_width I e' = (-1)%Z \/ Smtlib.get_bv_width I e' = (-2)%Z \/
+     ((0 <= Smtlib.get_bv_width I e')%Z /\ s' = sBV (Z.to_N (Smtlib.get_bv_width I e')))).
+Proof. exact subterm_sound_proof. Qed.
+Print Assumptions subterm_sound.
+
+(* W4 *)
+Theorem collect_decls_agrees : forall cmds,
+  script_ok cmds = true ->
+  lookup_agrees (collect_decls cmds) (decl_env cmds) /\
+  consts_unbound (decl_env cmds) /\ ops_unbound (decl_env cmds) /\
+  sorts_canon (collect_decls cmds) /\ cons_agree (collect_decls cmds) (decl_env cmds).
+Proof. exact collect_decls_agrees_proof. Qed.
+Print Assumptions collect_decls_agrees.
+
+Theorem dec_round_trip : forall n, dec_of (to_dec n) = Some n.
+Proof. exact dec_of_to_dec. Qed.
+Print Assumptions dec_round_trip.
+
+(* the hypotheses are satisfiable: a script with constants, functions, a datatype *)
+Example hyps_satisfiable :
+  lookup_agrees ex_I ex_g /\ consts_unbound ex_g /\ ops_unbound ex_g /\ sorts_canon ex_I /\ cons_agree ex_I ex_g.
+Proof. exact ex_hyps. Qed.
+Print Assumptions hyps_satisfiable.
+
+Example reach_example : reach ex_I ex_g ex_q (bind_vars ex_g [(lit "y", sInt)]) (L (lit "y")).
+Proof. exact ex_reach. Qed.
+
 Example type_of_example :
   type_of (mk_env [(lit "x", sBV 4)] [] []) (T [T [L (lit "_"); L (lit "extract"); L (lit "2"); L (lit "1")]; L (lit "x")]) = Some (sBV 2).
 Proof. vm_compute. reflexivity. Qed.
